@@ -47,6 +47,9 @@ def cases(tier, seed):
                    "N": N, "B": B, "M": M, "batch": bb, "seed": rnd.randrange(10**6)}
         for strat, q, (N, M) in itertools.product(["VariationalStrategy", "UnwhitenedVariationalStrategy"], ["random", "optimal"], [(5, 5), (6, 1), (2, 2)]):
             yield {"kind": "bound", "strategy": strat, "q": q, "N": N, "M": M, "seed": rnd.randrange(10**6)}
+        for obj, strat, lik, comb in itertools.product(["VariationalELBO", "PredictiveLogLikelihood"], ["VariationalStrategy", "UnwhitenedVariationalStrategy"], ["gauss", "bernoulli"], [True, False]):
+            yield {"kind": "definition", "objective": obj, "strategy": strat, "lik": lik, "beta": rnd.choice([0.1, 1.0, 3.0]), "priors": rnd.random() < 0.5, "combine_terms": comb, "added": True,
+                   "N": rnd.choice([20, 33]), "B": rnd.choice([1, 7, 12]), "batch": rnd.choice([[], [2]]), "seed": rnd.randrange(10**6)}
         for obj, wrapper, T, beta in itertools.product(["VariationalELBO", "PredictiveLogLikelihood"], ["indep", "lmc"], [2, 3], [1.0, 0.3]):
             yield {"kind": "definition_mt", "objective": obj, "wrapper": wrapper, "T": T, "beta": beta, "N": rnd.choice([20, 33]), "B": rnd.choice([1, 5, 9]), "seed": rnd.randrange(10**6)}
         for strat, q in itertools.product(["VariationalStrategy", "UnwhitenedVariationalStrategy"], ["random", "tinyS", "hugeS", "farmean", "prior", "optimal"]):
@@ -194,6 +197,28 @@ def _definition(case, ctx, g):
         obj = getattr(gpytorch.mlls, case["objective"])(lik, m, num_data=N, beta=case["beta"], combine_terms=case["combine_terms"])
     n_enum = len(list(obj.named_priors()))
     ctx.expect("priors_enumerated", n_enum == len(ref_priors), f"objective enumerates {n_enum} priors, {len(ref_priors)} registered")
+    added = []
+    if case.get("added"):
+        # registered added loss terms (direct child, inside a torch ModuleList): the objective subtracts each of them, whole
+        class Holder(gpytorch.Module):
+            def __init__(s):
+                super().__init__()
+                s.w = torch.nn.Parameter(util.randn(g, *b, 2))
+                s.register_added_loss_term("vf_term")
+
+        class Term(gpytorch.mlls.AddedLossTerm):
+            def __init__(s, h, c):
+                s.h, s.c = h, c
+
+            def loss(s, *params):
+                return s.c * (s.h.w**2).sum(-1)
+
+        hs = [Holder(), Holder(), Holder()]
+        m.vf_direct = hs[0]
+        m.vf_list = torch.nn.ModuleList(hs[1:])
+        for i, h in enumerate(hs):
+            h.update_added_loss_term("vf_term", Term(h, 0.3 * (i + 1) * (-1) ** i))
+            added.append((h, 0.3 * (i + 1) * (-1) ** i))
     _ST["cap"] = {}
     try:
         with torch.no_grad():
@@ -216,8 +241,16 @@ def _definition(case, ctx, g):
     kl_ref = kl * case["beta"] / N
     pr_ref = prior_sum / N
     cls = f"{case['objective'][:6]}:{case['lik']}"
+    with torch.no_grad():
+        al_ref = sum(c_ * (h.w**2).sum(-1) for h, c_ in added) if added else torch.tensor(0.0)
     if case["combine_terms"]:
-        ctx.close("objective_matches_definition", got, (ll_ref - kl_ref + pr_ref).expand(got.shape), (1e-9, 1e-9), cls=cls, beta=case["beta"], priors=case["priors"])
+        ctx.close("objective_matches_definition", got, (ll_ref - kl_ref + pr_ref - al_ref).expand(got.shape), (1e-9, 1e-9), cls=cls + (":added_loss" if added else ""), beta=case["beta"], priors=case["priors"])
+    elif added:
+        ctx.expect("objective_matches_definition", len(got) == 4, f"with added loss terms and combine_terms=False the objective returns {len(got)} parts (4 documented)")
+        if len(got) == 4:
+            ctx.close("objective_matches_definition", got[3], al_ref.expand(got[3].shape), (1e-9, 1e-9), cls=cls + ":added_loss_part", part="added")
+            ctx.close("objective_matches_definition", got[0], ll_ref.expand(got[0].shape), (1e-9, 1e-9), cls=cls + ":ll", part="ll")
+            ctx.close("objective_matches_definition", got[1], kl_ref.expand(got[1].shape), (1e-9, 1e-9), cls=cls + ":kl", part="kl", beta=case["beta"])
     else:
         ctx.close("objective_matches_definition", got[0], ll_ref.expand(got[0].shape), (1e-9, 1e-9), cls=cls + ":ll", part="ll")
         ctx.close("objective_matches_definition", got[1], kl_ref.expand(got[1].shape), (1e-9, 1e-9), cls=cls + ":kl", part="kl", beta=case["beta"])
